@@ -525,6 +525,7 @@ def handleLeave (fs : List (String × String)) : String := Id.run do
   let failed := (getNat fs "failed").getD 0
   let listed := (getNat fs "listed").getD 0
   let okReturned := (scenario != "timeout-then-again" && res1 == "nil") || (scenario == "timeout-then-again" && res2 == "nil")
+  let lossFree := scenario == "plain" || scenario == "plain-zero" || scenario == "many-departed"
   let inv := getD fs "inv" "ok"
   let bad : Option String :=
     if inv != "ok" then some s!"cluster-invariant:{inv}"
@@ -532,8 +533,8 @@ def handleLeave (fs : List (String × String)) : String := Id.run do
       some s!"leave-returned-nil-before-any-peer-was-sent-the-departure:{scenario}"
     -- what the peers record is judged only without injected loss: in the timeout scenario the departure
     -- packets are dropped by the network on purpose, and the property does not quantify over loss
-    else if okReturned && scenario == "plain" && failed > 0 then some s!"departure-recorded-as-failure-by-{failed}-peers"
-    else if okReturned && scenario == "plain" && listed > 0 then some s!"departed-node-still-listed-by-{listed}-peers-after-20s"
+    else if okReturned && lossFree && failed > 0 then some s!"departure-recorded-as-failure-by-{failed}-peers"
+    else if okReturned && lossFree && listed > 0 then some s!"departed-node-still-listed-by-{listed}-peers-after-20s"
     else none
   return s!"agree {match bad with | none => "ok" | some b => "BAD:" ++ b} nt={if left ≥ 2 then 1 else 0} br=leave-{scenario}-{res1}-{res2} "
 
